@@ -2,19 +2,19 @@ SPECIFICATION MCSpec
 CONSTANTS
     BufCap = 3
     Ls = {0, 3}
-    Ns = {0, 1, 2, 3}
-    Opts = {0, 1, 2, 4, 7}
-    Sizes = {1, 2, 4}
+    Ns = {0, 2}
+    Opts = {2, 3, 6}
+    Sizes = {1, 2}
     MaxSends = 4
-    MaxDay = 1
+    MaxDay = 2
     MaxRestarts = 1
     MaxCrash = 0
     MaxFault = 0
     MaxGzWrites = 1
     Ticks = FALSE
-    Fatal = TRUE
+    Fatal = FALSE
     FlushOnFatal = TRUE
-    ZoneBack = FALSE
+    ZoneBack = TRUE
     ZoneTies = FALSE
 INVARIANT TypeOK
 INVARIANT ReadBackIsHistory
